@@ -666,6 +666,68 @@ func ruleBranchKeyAgreement(c *report.Ctx) {
 			c.OK(key, "derived from and recorded under branch "+itoa(int(recorded[0])), posOf(c, s))
 		}
 	}
+	// every record one scan loop fills names one branch: the derivation path handed to the address and the entry under
+	// which its public key is stored (unlockDeriveInfo.branch → the (branch, index) key loadAddrManager rebuilds the
+	// path from) are written in the same iteration
+	type lab struct {
+		k  int64
+		in ssa.Instruction
+	}
+	perLoop := map[*ssa.BasicBlock][]lab{}
+	var hdrs []*ssa.BasicBlock
+	an.Instrs(f, func(in ssa.Instruction) {
+		st, ok := in.(*ssa.Store)
+		if !ok {
+			return
+		}
+		fa, ok := st.Addr.(*ssa.FieldAddr)
+		if !ok {
+			return
+		}
+		stT := derefStructT(fa.X.Type())
+		if stT == nil || !strings.EqualFold(an.FName(stT, fa.Field), "branch") {
+			return
+		}
+		k, isK := constInt(st.Val)
+		if !isK {
+			return
+		}
+		h := loopHeaderOf(in.Block())
+		if h == nil {
+			return
+		}
+		// the outermost loop of the scan
+		for {
+			id := h.Idom()
+			if id == nil {
+				break
+			}
+			o := loopHeaderOf(id)
+			if o == nil || o == h {
+				break
+			}
+			h = o
+		}
+		if _, seen := perLoop[h]; !seen {
+			hdrs = append(hdrs, h)
+		}
+		perLoop[h] = append(perLoop[h], lab{k, in})
+	})
+	for i, h := range hdrs {
+		key := siteKey(f, "branch-labels-of-one-scan", i+1)
+		ls := perLoop[h]
+		bad := -1
+		for j := range ls {
+			if ls[j].k != ls[0].k {
+				bad = j
+			}
+		}
+		if bad >= 0 {
+			c.Fail(key, "one restore scan labels what it recovers with two different branches ("+itoa(int(ls[0].k))+" and "+itoa(int(ls[bad].k))+"): the public keys are stored under another branch than the one they were derived on, the reloaded wallet rebuilds the paths from those labels and signs for these addresses with the other branch's key", posOf(c, ls[bad].in))
+		} else {
+			c.OK(key, itoa(len(ls))+" branch labels, all "+itoa(int(ls[0].k)), posOf(c, ls[0].in))
+		}
+	}
 }
 
 // ruleByteOrder: within one codec source file every encoding/binary access uses one byte order
